@@ -367,6 +367,11 @@ def run(ctx, report):
     from .c12 import state_copy_rule
     state_copy_rule(R14c, [ctx.mod('eval_abs')])
 
+    R17 = report.rule('C07.D17', 'the symbolic machine interpreted from its source on 24 instruction histories (stores that cover, split or abut earlier stores, reads between stores, the '
+                      'same address at two widths, parallel assignments inside one instruction, an address register updated between store and read): registers and probed cells after the '
+                      'history, valued on three initial states, equal the concrete byte-level execution of the same history (shared with C06.D16)', floor=20)
+    from .. import machine as _machine
+    _machine.emit(R17, ctx, 'C07')
     R16 = report.rule('C07.D16', 'a store searches the cells it covers (get_mem_overlapping) on every path; no fast path decides from an ordering test of the widths that nothing else is covered', floor=1)
     overlap_search_rule(R16, ea, methods)
     R15 = report.rule('C07.D15', 'every address looked up in the table of stored cells is simplified on every assignment that reaches the lookup (the table is keyed by simplified '
